@@ -129,7 +129,11 @@ def flipsCore (O : Query → IO Bytes) (sid beta : Bytes) (vx : List (List Bytes
   let h0 ← muHashOf O sid (muReceiver theta0 beta vx msg)
   let gref ← IO.mkRef (none : Option (List Nat))
   ps.mapM fun p => do
-    let m' := tamperBit msg p
+    -- a flip outside `a_tilde` is applied to the serialised tail only (same message as `tamperBit msg p`, without
+    -- re-parsing the 48 KiB table; the harness flips the real bytes independently)
+    let m' := if p < A_BITS then tamperBit msg p else
+      let tail := flipBit (msg.eta.flatMap id ++ msg.muHash) (p - A_BITS)
+      { msg with eta := chunks KAPPA_BYTES RHO tail, muHash := (tail.drop (RHO * KAPPA_BYTES)).take 64 }
     let h ← if p < A_BITS then receiverMu O sid beta vx m'
             else if p < A_BITS + E_BITS then muHashOf O sid (muReceiver theta0 beta vx m')
             else pure h0
@@ -138,6 +142,18 @@ def flipsCore (O : Query → IO Bytes) (sid beta : Bytes) (vx : List (List Bytes
         | some g => pure g
         | none => do let g ← gadgetVec O sid; gref.set (some g); pure g
       pure s!"1/{String.intercalate "/" ((receiverD g beta vx m').map scHex)}"
+
+/-- the receiver's OT layer of the base-OT variant for the last (state, base-OT messages) seen, keyed by the request text -/
+initialize vxMemo : IO.Ref (Option (String × Option (List (List Bytes)))) ← IO.mkRef none
+
+def vxCached (O : Query → IO Bytes) (key : String) (st : OtRecvState) (otA otB : List (Bytes × Bytes)) :
+    IO (Option (List (List Bytes))) := do
+  match ← vxMemo.get with
+  | some (k, v) => if k == key then return v
+  | none => pure ()
+  let v ← receiverVxOt O st otA otB
+  vxMemo.set (some (key, v))
+  pure v
 
 def otState (sid beta : Bytes) (tAa tAb : List Nat) : OtRecvState :=
   { sid, beta, stA := { choiceBits := beta.take LAMBDA_C_BYTES, tA := tAa },
@@ -234,10 +250,15 @@ def handleM (O : Query → IO Bytes) : List String → IO (Option String)
           | none => pure (some s!"ok:{scList r.c}:{bytesToHex r.msg.serialize}:{used}")
           | some e => pure (some s!"err:{errTag e}:{bytesToHex r.msg.serialize}:{used}")
       | _, _, _, _ => pure none
-  | ["otrecvproc", sid, beta, tAa, tAb, msg] => do
-      match hexToBytes? sid, parseFixed? L_BYTES beta, parseNatList? tAa, parseNatList? tAb, parseMsg2Ot? msg with
-      | some sid, some beta, some tAa, some tAb, some msg =>
-          pure (some (resStr (← receiverProcessOt O (otState sid beta tAa tAb) msg)))
+  | ["otrecvproc", sidS, betaS, tAaS, tAbS, msg] => do
+      match hexToBytes? sidS, parseFixed? L_BYTES betaS, parseNatList? tAaS, parseNatList? tAbS, parseMsg2Ot? msg with
+      | some sid, some beta, some tAa, some tAb, some m2 =>
+          -- `receiverProcessOt` with its OT layer (a function of the state and of the two base-OT messages) cached
+          let st := otState sid beta tAa tAb
+          let key := String.intercalate " " [sidS, betaS, tAaS, tAbS, (msg.take (4 * OT_MSG_BYTES)).toString]
+          match ← vxCached O key st m2.otA m2.otB with
+          | none => pure (some (resStr (.error decodeError)))
+          | some vx => pure (some (resStr (← receiverCore O sid beta vx m2.core)))
       | _, _, _, _, _ => pure none
   | ["otadv", sid, a, m1, tape, devs] => do
       match hexToBytes? sid, parseScalars? a, parseMsg1? m1, hexToBytes? tape, (devs.splitOn ";").mapM parseDevs? with
@@ -257,8 +278,8 @@ def handleM (O : Query → IO Bytes) : List String → IO (Option String)
           pure (some (String.intercalate "," (ms.map fun (_, core, _) =>
             bytesToHex ({ otA := ra.msg2, otB := rb.msg2, core : Msg2Ot }).serialize)))
       | _, _, _, _, _ => pure none
-  | ["otflips", sid, beta, tAa, tAb, msg, items] => do
-      match hexToBytes? sid, parseFixed? L_BYTES beta, parseNatList? tAa, parseNatList? tAb, parseMsg2Ot? msg,
+  | ["otflips", sidS, betaS, tAaS, tAbS, msgS, items] => do
+      match hexToBytes? sidS, parseFixed? L_BYTES betaS, parseNatList? tAaS, parseNatList? tAbS, parseMsg2Ot? msgS,
             parsePositions? items with
       | some sid, some beta, some tAa, some tAb, some msg, some ps =>
           let st := otState sid beta tAa tAb
@@ -272,7 +293,8 @@ def handleM (O : Query → IO Bytes) : List String → IO (Option String)
             pure (p, one (← receiverProcessOt O st (tamperBitOt msg p)))
           let rest := ps.filter (· ≥ otBits)
           let tail ← if rest.isEmpty then pure [] else do
-            match ← receiverVxOt O st msg.otA msg.otB with
+            let key := String.intercalate " " [sidS, betaS, tAaS, tAbS, (msgS.take (4 * OT_MSG_BYTES)).toString]
+            match ← vxCached O key st msg.otA msg.otB with
             | none => pure (rest.map fun _ => "e")
             | some vx => flipsCore O sid beta vx msg.core (rest.map (· - otBits))
           let tailAssoc := rest.zip tail
